@@ -4,6 +4,7 @@ import ChaiVerif.Drv.Stl
 import ChaiVerif.Drv.File
 import ChaiVerif.Drv.Json
 import ChaiVerif.Drv.Prelude
+import ChaiVerif.Drv.Env
 open ChaiVerif.Drv
 
 def main (args : List String) : IO UInt32 := do
@@ -14,5 +15,6 @@ def main (args : List String) : IO UInt32 := do
   | ["file"] => lineLoop fileLine; return 0
   | ["json"] => lineLoop jsonLine; return 0
   | ["prelude"] => lineLoop preludeLine; return 0
+  | ["state"] => lineLoop stateLine; return 0
   | ["arith-abi"] => (abiLines.forM IO.println); return 0
   | _ => IO.eprintln "usage: chaimodel <mode>"; return 2
